@@ -187,7 +187,9 @@ def render(rng, consts, stmts, canonical):
         else:
             text = render_stmt(rng, x, canonical, recase=not canonical)
             if cur.endswith(':'):
-                cur = cur + ws(rng, required=False).replace('', '') + (' ' if rng.random() < 0.7 else '\t') + text
+                # blanks between the colon and the statement carry no meaning - none at all is as good as several
+                cur = cur + rng.choice(['', '', ' ', ' ', '\t', '  \t ']) + text
+                kinds.add('label-in-front')
             elif cur and kind == 'ins' and not canonical and rng.random() < 0.4 and not cur.lstrip().startswith('.byte') \
                     and cur_kind != 'org':
                 cur = cur + ws(rng, required=True) + text
